@@ -2936,7 +2936,18 @@ CodegenResult codegen_compile(ASTNode *program, Environment *env,
                         for (int p = 0; p < pc && p < 16; p++) {
                             param_tags[p] = type_to_tag(mitem->as.function.params[p].type);
                         }
-                        register_extern(&cg, ename, modules->module_paths[mi],
+                        /* Name the module as a direct import would (relative to the program's
+                         * directory), not by the path resolved from this invocation: the emitted
+                         * file must not depend on where or how nano_virt was started. */
+                        const char *mod_id = modules->module_paths[mi];
+                        const char *in_slash = input_file ? strrchr(input_file, '/') : NULL;
+                        if (in_slash && mod_id) {
+                            size_t dir_len = (size_t)(in_slash - input_file) + 1;
+                            if (strncmp(mod_id, input_file, dir_len) == 0) {
+                                mod_id += dir_len;
+                            }
+                        }
+                        register_extern(&cg, ename, mod_id,
                                        pc, ret_tag, param_tags);
                     }
                 }
